@@ -154,7 +154,21 @@ STRENGTHENED.update({
     "c18-17": "C18 missed it at first; every variable reference of the generated programs is now wrapped in a probe that tells an array from a nil slice printing like one (deletions)",
     "c19-15": "C19 and C05 missed it at first; order-sensitive folds (floating-point sums that cancel) over the members of objects, 30 programs x 3-4 objects x 12 key sets, 4 runs each in C05 and 16 runs each in c19.history",
 })
+STRENGTHENED.update({
+    # round 8
+    "c02-16": "C02 missed it at first (the reference primitives declare a negative fractional index unsupported); new kind c02.readwrite: 11 laws tying setpath, `=`, `|=`, `+=`, del and delpaths to the element getpath finds through 31 hostile indices on arrays with distinct elements",
+    "c03-17": "C03 missed it at first; new kind c03.rangeedge: range($from; $upto; $by) across the edges of the machine integers (7 edges x 12 steps of either sign x 7 offsets x 4 representations) against the arithmetic progression computed with math/big",
+    "c06-16": "C06 missed it at first (C10 and C05 caught it); integer literals beyond 64 bits — pointers inside the shared Code — under every arithmetic operator were added to the concurrent workload (the race detector reports the concurrent writes)",
+    "c08-17": "C08 missed it at first; clusters of short flags that end in (or contain) the one that takes a value (-nL dir, -ncL, -nfL ...) were added to the argv pool",
+    "c12-16": "C12 missed it at first; new kind c12.touched: number literals with hostile spellings (negative zeros with fractions and exponents, underflowing and overflowing values, trailing zeros) touched by one of 31 operations, written under 6 output modes and YAML, read back, and `tojson | fromjson | tojson` compared",
+    "c15-17": "filed under C15 by its author, whose model has no YAML output; c12.streams caught it after inputs that fail or halt before, between and after their values (256 shapes of 4 inputs) were added",
+    "c16-17": "C16 missed it at first; new kind c16.procfs: /proc/version (reported size 0) under -Rs, -R, --rawfile, between other files and as a redirected standard input",
+    "c17-16": "C17 missed it at first; a zero width no-break space (U+FEFF) inside quoted YAML scalars and in the alphabets of the JSON and query generators (documents the YAML decoder itself rejects without the fault are inconclusive)",
+    "c19-16": "filed under C19 by its author; it is the mechanism of c18-15 (a repeated global variable name shifting what modules see), which C18 catches",
+    "c20-16": "caught by a single case at first; ten loop forms whose turns evaluate a path expression that forks while it is tracked were added",
+})
 NOT_A_VIOLATION = {
+    "c04-16": "the folded and the unfolded literal -9223372036854775808 differ in the Go type that carries the value (int / *big.Int), not in the value: no query can tell them apart (C03 checks exactly that interchangeability), so the optimisation stays unobservable in the sense of the property; the author says as much",
     "c15-6": "after a malformed document in a file that is not the last one, the unchanged command goes on with the next file, the changed one stops. C16 says of a malformed document 'every complete value before it, then one error, then end of input' and C15 speaks of runtime errors of the query only; neither property decides whether the files named later are still read, so the checks accept both (DESIGN 9.2, 'not defects')",
 }
 OVERRIDE_NEEDS = {}
